@@ -1714,6 +1714,42 @@ def write_read_object(ctx, m, ref, cs, styles, user, case, exempt=()):
         ctx.count(f"copies written and read back ({style})")
 
 
+def probe_independence(ctx, obj, make, how, snap, valid_value, names, scratch, rng):
+    """On probe copies made by the same route (the modelled objects stay untouched): assign on the copy, revert on it, write it
+    to another path - the original keeps its values, its path and its case title; and the other way round."""
+    def ident(o):
+        return (state_map(o), o.path, o.caseTitle)
+    pr = make(obj)
+    if pr is obj:
+        ctx.fail(f"copy-is-same-object:{how}", "modified copies (also with an empty modification set) are new objects", snap(how=how, probe=True))
+        return          # do not mutate the modelled object
+    pr2 = make(pr)
+    if pr2 is pr:
+        ctx.fail(f"copy-is-same-object:{how}", "modified copies (also with an empty modification set) are new objects", snap(how=how, probe=True))
+        return
+    want_obj, want_pr2 = ident(obj), ident(pr2)
+    step = "none"
+    for step in ("assign", "revert", "write"):
+        if step == "assign":
+            for n in rng.sample([x for x in names if x not in ("versions", "userPlugins") + VERBOSITY_FAMILY], 3):
+                v = valid_value(n)
+                if v is not None:
+                    pr[n] = v
+        elif step == "revert":
+            pr.revertToDefaults()
+        else:
+            pr.writeToYamlFile(os.path.join(scratch, f"probe-{rng.randint(0, 9)}.yaml"), style=rng.choice(["short", "full"]))
+        for who, o, want in (("original", obj, want_obj), ("copy of the mutated object", pr2, want_pr2)):
+            got = ident(o)
+            if got != want:
+                what = [k for k in want[0] if got[0].get(k) != want[0][k]][:4] + (["path"] if got[1] != want[1] else []) + \
+                    (["caseTitle"] if got[2] != want[2] else [])
+                ctx.fail(f"copy-mutation-reaches-other-object:{how}", "modified copies do not affect the original (values, path), nor the "
+                         "original its copies", snap(how=how, step=step, affected=who), observed=what)
+                return
+    ctx.count(f"independence probes ({how})")
+
+
 def run_copies(ctx, cs0, ref):
     """Multi-step histories: assign / load non-default values, derive a copy (modified, duplicate, deepcopy, pickle; copies
     of copies; revertToDefault / changeDefault before and after copying), WRITE THE COPY in each style and read it back."""
@@ -1734,6 +1770,8 @@ def run_copies(ctx, cs0, ref):
         c = [r for r in candidates(n, ref[n], rng, 4) if schema_of(ref[n], r)[0] and canon(schema_of(ref[n], r)[1]) != base_defaults[n]]
         return copy.deepcopy(rng.choice(c)) if c else None
 
+    stack = contextlib.ExitStack()
+    scratch = stack.enter_context(common.scratch_dir("c17c-"))
     for t in range(ctx.pick(36, 400)):
         cs = settings.Settings()
         m.send("clr", "ok")
@@ -1796,9 +1834,10 @@ def run_copies(ctx, cs0, ref):
                     hist.append(("changeDefault", n, repr(raw)[:60]))
                     script.append(["chdef", n, repr(raw)])
             before = state_map(obj)
-            kinds = ["modified", "duplicate", "deepcopy", "pickle", "modified"]
-            how = kinds[t % 5] if (d == 0 and t < 10) else rng.choice(kinds)      # every kind of copy on every run
+            kinds = ["modified", "duplicate", "deepcopy", "pickle", "modified-empty", "modified-none", "modified-title", "modified"]
+            how = kinds[t % 8] if (d == 0 and t < 16) else rng.choice(kinds)      # every kind of copy on every run
             news, tok = {}, []
+            title = f"sweep{t}x{d}"
             if how == "modified":
                 for n in rng.sample(names, rng.randint(0, 2)):
                     raw = valid_value(n)
@@ -1813,21 +1852,37 @@ def run_copies(ctx, cs0, ref):
                     if k not in dict(obj.items()):
                         news[k] = rng.choice([3, "x", [1, 2], 2.5])
                         tok.append(f"{k}={I(news[k])}")
-            try:
+            def make(o):
                 if how == "modified":
-                    cp = obj.modified(newSettings=copy.deepcopy(news))
-                elif how == "duplicate":
-                    cp = obj.duplicate()
-                elif how == "deepcopy":
-                    cp = copy.deepcopy(obj)
-                else:
-                    cp = pickle.loads(pickle.dumps(obj))
+                    return o.modified(newSettings=copy.deepcopy(news))
+                if how == "modified-empty":
+                    return o.modified(newSettings={})         # the baseline point of a sweep: nothing to modify
+                if how == "modified-none":
+                    return o.modified()
+                if how == "modified-title":
+                    return o.modified(caseTitle=title)
+                if how == "duplicate":
+                    return o.duplicate()
+                if how == "deepcopy":
+                    return copy.deepcopy(o)
+                return pickle.loads(pickle.dumps(o))
+            try:
+                cp = make(obj)
             except Exception as e:
                 ctx.fail(f"copy-raises:{how}", "a settings object can be copied", snap(how=how), observed=f"{type(e).__name__}: {e}"[:200])
                 break
             hist.append((how, {k: repr(v)[:60] for k, v in news.items()}))
             script.append(["copy", how, {k: repr(v) for k, v in news.items()}])
-            m.send("modified [" + ",".join(tok) + "]" if how == "modified" else "dup", "ok", case)
+            m.send("modified [" + ",".join(tok) + "]" if how.startswith("modified") else "dup", "ok", case)
+            # a copy is a NEW object, with or without modifications, and independent of its original in both directions
+            if cp is obj:
+                ctx.fail(f"copy-is-same-object:{how}", "modified copies (also with an empty modification set) are new objects", snap(how=how))
+            if how == "modified-title" and cp.caseTitle != title:
+                ctx.fail("modified-title-not-applied", "modified(caseTitle=...) names the copy", snap(how=how), observed=cp.caseTitle)
+            try:
+                probe_independence(ctx, obj, make, how, snap, valid_value, names, scratch, rng)
+            except Exception as e:
+                ctx.fail(f"copy-probe-raises:{how}", "a copy can be assigned, reverted and written", snap(how=how), observed=f"{type(e).__name__}: {e}"[:200])
             if state_map(obj) != before:
                 ctx.fail("modified-affects-original", "modified copies do not affect the original", snap(how=how))
             # the copy holds what the original held (plus the modifications)
@@ -1897,6 +1952,7 @@ def run_copies(ctx, cs0, ref):
             m.flush("Settings model vs copies written and read back")
             m = _renew(ctx, m, cs0)
     m.flush("Settings model vs copies written and read back")
+    stack.close()
 
 
 def run_cycles(ctx, cs0, ref):
